@@ -343,6 +343,10 @@ class screen:
             self.scroll_row_start = 1
         if self.scroll_row_end > self.rows:
             self.scroll_row_end = self.rows
+        if self.scroll_row_end <= 0:
+            # An end row of 0 would turn into index -1 in scroll_up() and
+            # scroll_down(), whose slice assignments then delete rows.
+            self.scroll_row_end = 1
 
     def scroll_screen (self): # <ESC>[r
         '''Enable scrolling for entire display.'''
